@@ -210,17 +210,25 @@ func (f *Facade) serve(rw http.ResponseWriter, req *http.Request) {
 	case "/v1/listpays":
 		hash := str("payment_hash")
 		st, err := f.B.OutgoingPaymentStatus(req.Context(), hash)
+		// the node lists one entry per attempt on a payment hash, oldest first: attempts that failed before the
+		// invoice was tried again stay in the list in front of the current one
+		var earlier []any
+		if p := f.B.Payment(hash); p != nil {
+			for i := 0; i < p.FailedBefore; i++ {
+				earlier = append(earlier, map[string]any{"payment_hash": hash, "status": "failed"})
+			}
+		}
 		switch {
 		case err == lightning.OutgoingPaymentNotFound:
 			ok(rw, map[string]any{"pays": []any{}})
 		case err != nil:
 			drop(rw)
 		case st.PaymentStatus == lightning.Succeeded:
-			ok(rw, map[string]any{"pays": []any{map[string]any{"payment_hash": hash, "status": "complete", "preimage": st.Preimage}}})
+			ok(rw, map[string]any{"pays": append(earlier, map[string]any{"payment_hash": hash, "status": "complete", "preimage": st.Preimage})})
 		case st.PaymentStatus == lightning.Pending:
-			ok(rw, map[string]any{"pays": []any{map[string]any{"payment_hash": hash, "status": "pending"}}})
+			ok(rw, map[string]any{"pays": append(earlier, map[string]any{"payment_hash": hash, "status": "pending"})})
 		default:
-			ok(rw, map[string]any{"pays": []any{map[string]any{"payment_hash": hash, "status": "failed"}}})
+			ok(rw, map[string]any{"pays": append(earlier, map[string]any{"payment_hash": hash, "status": "failed"})})
 		}
 	default:
 		fail(rw, 404, "unknown command")
